@@ -92,7 +92,7 @@ func identity(s *stack.Stack, maxSize int64) error {
 
 func TestC03Scheduled(t *testing.T) {
 	installHook()
-	rt.Check(t, rt.N(600, 5000), func(t *rapid.T) {
+	rt.Check(t, rt.N(1200, 8000), func(t *rapid.T) {
 		storage := rapid.SampledFrom([]string{"zstd", "uncompressed"}).Draw(t, "storage")
 		maxSize := int64(rapid.IntRange(6, 24).Draw(t, "maxBlocks")) * 4096
 		s, err := stack.New(stack.Opts{Storage: storage, MaxSize: maxSize, NoServers: true})
@@ -100,6 +100,7 @@ func TestC03Scheduled(t *testing.T) {
 			t.Fatal(err)
 		}
 		sc := sched.New()
+		sc.BatchQueued = func() bool { return disk.VerifEvictionBatchQueued(s.Cache) }
 		defer func() {
 			curSchedMu.Lock()
 			curSched = nil
@@ -147,6 +148,7 @@ func TestC03Scheduled(t *testing.T) {
 
 		ntasks := rapid.IntRange(2, 5).Draw(t, "ntasks")
 		var shape []string
+		sumPut := 0
 		reinsert := rapid.Bool().Draw(t, "reinsertShape")
 		for i := 0; i < ntasks; i++ {
 			op := rapid.SampledFrom([]string{"put", "put", "failput", "get", "put-cas", "get-cas", "get-cas", "findmissing", "filler", "filler"}).Draw(t, "op")
@@ -164,6 +166,14 @@ func TestC03Scheduled(t *testing.T) {
 			switch op {
 			case "put", "failput":
 				size := rapid.SampledFrom([]int{1, 100, 3000, 9000}).Draw(t, "size")
+				if sumPut > 0 && rapid.IntRange(0, 2).Draw(t, "justFits") == 0 {
+					// exactly fits beside the reservations of the uploads drawn so far,
+					// though not once it is rounded up to whole blocks
+					if js := int(maxSize) - sumPut - rapid.SampledFrom([]int{0, 1, 100}).Draw(t, "slack"); js >= 1 && js <= 60000 {
+						size = js
+					}
+				}
+				sumPut += size
 				data := val(10+i, size)
 				step := rapid.SampledFrom([]int{size, size/2 + 1, 1000}).Draw(t, "step")
 				fail := 0
@@ -209,6 +219,7 @@ func TestC03Scheduled(t *testing.T) {
 		}
 		var midErr error
 		steps := 0
+		lastTask := "" // schedules with long stretches: the task that ran last mostly keeps running
 		err = sc.Run(func(parked []*sched.Task) int {
 			steps++
 			if midErr == nil {
@@ -217,9 +228,17 @@ func TestC03Scheduled(t *testing.T) {
 				}
 			}
 			if len(parked) == 1 {
+				lastTask = parked[0].Name
 				return 0
 			}
-			return rapid.IntRange(0, len(parked)-1).Draw(t, "sched")
+			for i, p := range parked {
+				if p.Name == lastTask && rapid.IntRange(0, 3).Draw(t, "stay") > 0 {
+					return i
+				}
+			}
+			i := rapid.IntRange(0, len(parked)-1).Draw(t, "sched")
+			lastTask = parked[i].Name
+			return i
 		}, func() int64 { return disk.VerifQueuedEvictionBytes(s.Cache) })
 		curSchedMu.Lock()
 		curSched = nil
